@@ -70,6 +70,21 @@ try:
                 (passed if e['Action'] == 'pass' else failed).add(k)
     want = {t for t in base if t.split('::')[0] in affected}
     missing = sorted(want - passed)
+    # timing-sensitive tests fail when the machine is loaded: a package with missing tests is
+    # re-run alone, once, before the verdict
+    retried = []
+    for pk in sorted({t.split('::')[0] for t in missing}):
+        retried.append(pk.replace('github.com/aergoio/aergo/v2/', ''))
+        r = sh(f'go test -json -vet=off -count=1 -timeout 25m {pk} 2>/dev/null')
+        for l in r.stdout.splitlines():
+            try:
+                e = json.loads(l)
+            except Exception:
+                continue
+            if e.get('Test') and e.get('Action') == 'pass':
+                passed.add(e['Package'] + '::' + e['Test'])
+    res['baseline_packages_rerun_alone'] = retried
+    missing = sorted(want - passed)
     res['baseline_tests_checked'] = len(want)
     res['baseline_missing'] = missing[:10]
     res['baseline_ok'] = not missing
